@@ -14,6 +14,7 @@ import copy
 import hashlib
 import json
 import os
+import time
 from concurrent.futures import ThreadPoolExecutor
 
 from vcommon import Check, InternalError, main_wrapper, run_impl, gz, glist, gbool, gnat, gopt, gbytes, ROOT
@@ -708,6 +709,8 @@ def shrink(c, case, key, rounds=10):
     best = None
     tag = hashlib.sha1(key.encode()).hexdigest()[:6]
     for rnd in range(rounds):
+        if time.time() - c.t0 > 150:          # a failing run stays within a few minutes: report what was reached
+            break
         cands = [dict(cd, name=f"s{tag}r{rnd}c{i}", real_resubmit=True)
                  for i, cd in enumerate(reductions(cur))]
         if not cands:
